@@ -22,34 +22,35 @@ const modPath = "github.com/Oudwins/zog"
 // /repo, their SSA form (generic origins, not instantiations), and a VTA call
 // graph.
 type Prog struct {
-	Repo     string
-	GOARCH   string
-	Fset     *token.FileSet
-	Pkgs     []*packages.Package
-	PkgByID  map[string]*packages.Package
-	SSA      *ssa.Program
-	SSAPkgs  map[string]*ssa.Package // import path -> ssa package (module only)
-	Funcs    []*ssa.Function         // module functions: named, anonymous, init; generic origins only
-	ByName   map[string]*ssa.Function
-	AllFuncs map[*ssa.Function]bool // every function incl. stdlib + instantiations (for call graph)
-	CG       *callgraph.Graph
-	Sizes    types.Sizes
+	modCGMemo *modCG
+	Repo      string
+	GOARCH    string
+	Fset      *token.FileSet
+	Pkgs      []*packages.Package
+	PkgByID   map[string]*packages.Package
+	SSA       *ssa.Program
+	SSAPkgs   map[string]*ssa.Package // import path -> ssa package (module only)
+	Funcs     []*ssa.Function         // module functions: named, anonymous, init; generic origins only
+	ByName    map[string]*ssa.Function
+	AllFuncs  map[*ssa.Function]bool // every function incl. stdlib + instantiations (for call graph)
+	CG        *callgraph.Graph
+	Sizes     types.Sizes
 
 	roles *Roles
 
-	fieldOwnerMemo map[*types.Var]*types.Named
-	retRootsMemo   map[*ssa.Function][]root
-	retRootsBusy   map[*ssa.Function]bool
-	relevantMemo   map[*ssa.Function]bool
-	nodePathsMemo  map[*ssa.Function]*pathResult
-	catchMemo      *catchAnalysis
-	unitsMemo      map[*ssa.Function][]*nodeUnit
-	wrappersMemo   []wrapperInfo
-	wipeMemo       map[string]fieldSet
+	fieldOwnerMemo  map[*types.Var]*types.Named
+	retRootsMemo    map[*ssa.Function][]root
+	retRootsBusy    map[*ssa.Function]bool
+	relevantMemo    map[*ssa.Function]bool
+	nodePathsMemo   map[*ssa.Function]*pathResult
+	catchMemo       *catchAnalysis
+	unitsMemo       map[*ssa.Function][]*nodeUnit
+	wrappersMemo    []wrapperInfo
+	wipeMemo        map[string]fieldSet
 	notConsumerFn   *ssa.Function
 	notConsumerDone bool
-	entryMemo      map[*ssa.Function]*entryResult
-	shapeMemo      map[*ssa.Function]predShape
+	entryMemo       map[*ssa.Function]*entryResult
+	shapeMemo       map[*ssa.Function]predShape
 }
 
 func shortName(s string) string {
@@ -202,7 +203,7 @@ func Load(repo, goarch string, needCG bool) (*Prog, error) {
 	P := &Prog{
 		Repo: repo, GOARCH: goarch, Fset: fset, Pkgs: pkgs, SSA: prog,
 		PkgByID: map[string]*packages.Package{}, SSAPkgs: map[string]*ssa.Package{},
-		ByName: map[string]*ssa.Function{},
+		ByName:       map[string]*ssa.Function{},
 		retRootsMemo: map[*ssa.Function][]root{}, retRootsBusy: map[*ssa.Function]bool{},
 	}
 	for i, p := range pkgs {
